@@ -44,7 +44,7 @@ def run(ctx):
         "NOT decided: equality of the re-parsed interface for all parameter lists; nothing about types, "
         "descriptions or default values (value level)",
     ]
-    for rule in (_align_parse, _align_emit, _shape, _keywords, _optional, _falsy, _order_rule):
+    for rule in (_align_parse, _align_emit, _shape, _keywords, _optional, _falsy, _order_rule, _escape):
         ctx.section(rule, ctx, index)
 
 
@@ -434,6 +434,109 @@ def _falsy(ctx, index):
             )
     ctx.count("default_value_uses", n)
     ctx.floor("uses of a `default` value in emitters/parsers", n, 40)
+    # the same test in functional clothing: filter(None, <values of keywords named K>) drops a falsy value.
+    # K == "default" directly, or K is a parameter that some call site binds to "default".
+    n_f = 0
+    for f in index.nontest_funcs():
+        for node in iter_own(f.node):
+            if not (isinstance(node, ast.Call) and norm(node.func) == "filter" and len(node.args) == 2):
+                continue
+            pred = node.args[0]
+            if not ((isinstance(pred, ast.Constant) and pred.value is None) or norm(pred) == "bool"):
+                continue
+            gen = node.args[1]
+            if not isinstance(gen, (ast.GeneratorExp, ast.ListComp)):
+                continue
+            keys = []
+            for g in gen.generators:
+                for c in g.ifs:
+                    for cmp_ in ast.walk(c):
+                        if isinstance(cmp_, ast.Compare) and len(cmp_.ops) == 1 and isinstance(cmp_.ops[0], ast.Eq) and norm(cmp_.left).endswith(".arg"):
+                            keys.append(cmp_.comparators[0])
+            if not keys or ".value" not in norm(gen.elt):
+                continue
+            n_f += 1
+            hits = []
+            for k in keys:
+                if isinstance(k, ast.Constant) and k.value == "default":
+                    hits.append((f, node))
+                elif isinstance(k, ast.Name) and k.id in f.params:
+                    pos = f.params.index(k.id)
+                    for g2 in index.nontest_funcs():
+                        for c in iter_own(g2.node):
+                            if isinstance(c, ast.Call) and index.callee(g2.mod, c, g2) == f.qual:
+                                a = c.args[pos] if pos < len(c.args) else next((kw.value for kw in c.keywords if kw.arg == k.id), None)
+                                if isinstance(a, ast.Constant) and a.value == "default":
+                                    hits.append((g2, c))
+            if not hits:
+                ctx.ob("C02.falsy", f, short(node, 90), True, line=node.lineno)
+            for g2, site in hits:
+                ctx.ob(
+                    "C02.falsy",
+                    g2,
+                    short(site, 90),
+                    False,
+                    "the value of the `default=` keyword is read through filter({}, ...): the defaults 0, 0.0, False and '' are "
+                    "filtered out as if the keyword were absent, so they do not survive emit -> parse".format(norm(pred)),
+                    line=site.lineno,
+                )
+    ctx.count("truthiness_filters_over_keyword_values", n_f)
+
+
+# writer -> readers that must undo whatever character-level rewriting the writer applies (confirmed by reading:
+# today none of the writers rewrites anything, so the readers rightly undo nothing)
+ESCAPE_PAIRS = (
+    ("cdd.shared.ast_utils.param2argparse_param", ("cdd.argparse_function.utils.emit_utils.parse_out_param",), "help / default text of an add_argument call"),
+    ("cdd.shared.pure_utils.quote", ("cdd.shared.pure_utils.unquote", "cdd.shared.ast_utils.set_value"), "a quoted string default"),
+    ("cdd.shared.defaults_utils.set_default_doc", ("cdd.shared.defaults_utils.extract_default", "cdd.shared.defaults_utils._parse_out_default_and_doc"), "the default announced in a description"),
+)
+
+
+def _escape(ctx, index):
+    """
+    C02.escape: a writer that rewrites characters of a value (`.replace(A, B)` with constant, different A and
+    B — escaping) must have a reader that rewrites them back (`.replace(B, A)`); otherwise every round trip
+    adds another layer (`80%` -> `80%%` -> `80%%%%`, `"` -> `\\"`).
+    """
+    n = 0
+    for wq, rqs, what in ESCAPE_PAIRS:
+        w = index.func(wq)
+        readers = [index.func(r) for r in rqs]
+        reps = []
+        for c in [x for x in ast.walk(w.node) if isinstance(x, ast.Call)]:
+            if isinstance(c.func, ast.Attribute) and c.func.attr == "replace" and len(c.args) >= 2:
+                a, b = c.args[0], c.args[1]
+                av = a.value if isinstance(a, ast.Constant) else None
+                bv = b.value if isinstance(b, ast.Constant) else None
+                if isinstance(av, str) and isinstance(bv, str) and (av == "" or bv == "" or av == bv):
+                    continue  # deletion / identity is not escaping
+                reps.append((c, norm(a), norm(b), av, bv))
+        n += 1
+        if not reps:
+            ctx.ob("C02.escape", w, "{} rewrites no characters of {}".format(w.node.name, what), True, line=w.node.lineno)
+            continue
+        for c, at, bt, av, bv in reps:
+            undone = False
+            for r in readers:
+                for rc in [x for x in ast.walk(r.node) if isinstance(x, ast.Call)]:
+                    if isinstance(rc.func, ast.Attribute) and rc.func.attr == "replace" and len(rc.args) >= 2:
+                        ra, rb = rc.args[0], rc.args[1]
+                        if isinstance(ra, ast.Constant) and isinstance(rb, ast.Constant) and av is not None and bv is not None:
+                            undone = undone or (ra.value == bv and rb.value == av)
+                        else:
+                            undone = undone or (norm(ra) == bt and norm(rb) == at)
+            ctx.ob(
+                "C02.escape",
+                w,
+                c,
+                undone,
+                ""
+                if undone
+                else "{} rewrites {} to {} in {}, and none of {} rewrites it back: the value grows by one layer of escaping on "
+                "every emit -> parse round".format(w.node.name, at, bt, what, [r.node.name for r in readers]),
+                line=c.lineno,
+            )
+    ctx.count("escape_pairs", n)
 
 
 __all__ = ["run", "param_roots"]
